@@ -258,6 +258,24 @@ func (s *sess) action(name string) func() {
 			s.during = r
 			s.reqs = append(s.reqs, r)
 		}
+	case "oversized-post-during-upload":
+		// the same, but the second request announces a body above the maximum payload size: it is an
+		// overlapping data request all the same
+		return func() {
+			vsched.Sleep(500 * time.Millisecond)
+			body, ct := s.pc.EncodeBody([]Pkt{Msg("d1")})
+			r := w.Request("POST", s.pc.url(true), ReqOpt{Hdr: map[string]string{"Content-Type": ct}, Body: body, DeclLen: 50_000_000})
+			s.during = r
+			s.reqs = append(s.reqs, r)
+		}
+	case "repoll":
+		// the client's next poll, issued as soon as the pending one has come back (or was given up)
+		return func() {
+			if s.pending != nil {
+				s.pending.Wait()
+			}
+			s.reqs = append(s.reqs, s.pc.Get())
+		}
 	case "close-false":
 		return func() { s.rec.Sock.Close(false) }
 	case "close-true":
@@ -360,7 +378,7 @@ func (s *sess) allowedReasons(actions []string, at time.Duration) map[string]boo
 			allowed[r] = true
 		}
 		switch a {
-		case "close-packet", "garbage", "post-msg", "overlap-post", "slow-post", "post-during-upload":
+		case "close-packet", "garbage", "post-msg", "overlap-post", "slow-post", "post-during-upload", "oversized-post-during-upload":
 			posts++
 		case "poll", "overlap-poll":
 			polls++
@@ -700,6 +718,11 @@ func sessCases(thorough bool) []sessCase {
 	out = append(out, sessCase{kind: "polling", pending: true, actions: []string{"slow-post", "post-during-upload"}})
 	out = append(out, sessCase{kind: "polling", pending: false, actions: []string{"slow-post", "post-during-upload"}})
 	out = append(out, sessCase{kind: "polling", pending: true, actions: []string{"slow-post", "post-during-upload", "send"}})
+	out = append(out, sessCase{kind: "polling", pending: true, actions: []string{"slow-post", "oversized-post-during-upload"}})
+	out = append(out, sessCase{kind: "polling", pending: false, actions: []string{"slow-post", "oversized-post-during-upload"}})
+	// the client gives up its pending poll while the application's batch answers it, and polls again at once
+	out = append(out, sessCase{kind: "polling", pending: true, actions: []string{"abort-poll", "send", "repoll"}})
+	out = append(out, sessCase{kind: "polling", pending: true, actions: []string{"abort-poll", "send2", "repoll"}})
 	// a responsive client: heartbeat expiry is then never an acceptable reason
 	for _, kind := range []string{"polling", "websocket"} {
 		for _, acts := range [][]string{{"send"}, {"send2"}, {"close-false"}, {"send", "close-false"}, {"send2", "close-false"}, {"send2", "close-true"}, {"send", "server-close"}} {
